@@ -28,7 +28,9 @@ TIMES = {"equal": lambda n: [float(i) for i in range(n)],
          "unequal": lambda n: [0.0, 1.0, 4.0, 4.5, 6.5, 10.0][:n],
          "offset": lambda n: [5.0 + 0.25 * i for i in range(n)],
          "tiny": lambda n: [1e-3 * i for i in range(n)],
-         "huge": lambda n: [1e4 * i + 3 for i in range(n)]}
+         "huge": lambda n: [1e4 * i + 3 for i in range(n)],
+         # stamps that start below zero: the value 0.0 falls on a frame that is not the first one (and on the last of two frames)
+         "negative": lambda n: [-3.0, 0.0] if n == 2 else [-3.0, -1.0, 0.0, 2.5, 4.0, 4.75][:n]}
 VMAPS = [["id"], ["rev"], ["gap", 3, 7], ["off", 10 ** 6], ["rot", 5], ["swap0"], ["stored_rev"]]
 
 
@@ -44,7 +46,7 @@ class Velocities(ProductSystem):
         return self._t
 
     def axes(self, base):
-        return {"motion": ["random_like", "flow_d", "shear", "breathe", "rest"], "L": [3, 2, 4, 6], "times": ["equal", "unequal", "offset", "tiny", "huge"],
+        return {"motion": ["random_like", "flow_d", "shear", "breathe", "rest"], "L": [3, 2, 4, 6], "times": ["equal", "unequal", "offset", "tiny", "huge", "negative"],
                 "vm0": VMAPS, "vm1": VMAPS, "vm2": VMAPS, "drop": [None, 1, 2], "b": ["velocity", None], "adim": [False, True], "norm": [1, 0, 2.5],
                 "unit": [1.0, 1e3, 1e-3, 512.0]}
 
